@@ -113,6 +113,20 @@ CHECKS += [
           "copy/deepcopy/pickle 2-5 equal and identical in behaviour.",
   "note": "Preemption inside a line / C code not modelled; identity demanded per cache_clear epoch (pinned by the suite); random schedules beyond the bound are not done; pickle protocols 0/1 excluded (CPython __slots__ rule)."},
 ]
+CHECKS += [
+ {"id": "C07", "engine": "E1-shape",
+  "technique": "exhaustive enumeration of dates x date styles x time forms x offsets x separators x input types; the independent renderer is the inverse",
+  "text": "120 dates (week-year, leap and range boundaries) x 10 date styles (calendar/week/ordinal, basic/extended, date-only forms) x 6 times x every time form (5 precisions, 1..9 fraction digits, "
+          "dot/comma, basic/extended) x every offset form and value (Z, z, +-hh, +-hhmm, +-hh:mm, -00:00, +-23:59) with 'T'; every separator (default ' ', 'x', '_'; configured 'T' and ' ') and "
+          "bytes/stream inputs on reduced forms; all 24:00 spellings; parse_isodate / parse_isotime / parse_tzstr obey the same inverse law (~2.9M strings parsed per run).",
+  "note": "refs/iso_ref.py renderer + date.isocalendar are trusted."},
+ {"id": "C20", "engine": "E1-shape (edit neighbourhood)",
+  "technique": "exhaustive enumeration of all strings within 1 (thorough 2) edits of every valid form + all short strings over a 12-character alphabet, against an independent ISO-8601 recogniser returning the set of readings",
+  "text": "Every string within one edit (substitute/insert/delete over '019-:.,+TWZ_ a', adjacent transposition) of ~2600 valid strings of all supported forms, judged by the default and a sep='T' parser; "
+          "thorough: within two edits of a core; every string of length <= 5 (6 thorough) over '0129-:+.,WZ ' at the four entry points; non-ASCII, separator mismatch, non-text. "
+          "A returned value must be one of the readings the grammar assigns to the text; an empty reading set demands ValueError and no other exception type.",
+  "note": "Rejecting is always sound here (acceptance is C07). Per the suite's own property test any single byte, even a digit, is a legal date/time separator when none is configured."},
+]
 _claimed = {c["id"] for c in CHECKS}
 NOT_APPLICABLE = [{"property_id": p, "reason": "check not built yet (work in progress; see DESIGN.md §5 build order)"}
                   for p in ALL if p not in _claimed]
